@@ -126,7 +126,7 @@ check("C05", "exploration",
 check("C06", "fault_enumeration",
       "Fault enumeration on the real XML reader/lexer/type checker: accepted base models x 11 text blocks x 9 fault kinds "
       "(undeclared identifier, clock for operand, token deleted, bracket deleted, stray ) ] }, semicolon deleted, side "
-      "effect, unterminated comment) at every token position x 7 layout variants (blank lines, "
+      "effect, unterminated comment) at every token position x 10 layout variants (blank lines, whitespace-only lines, trailing blanks, mixed line ends, "
       "&#13;&#10; line ends, block and line comments, tabs, backslash continuations). Every error and warning is resolved "
       "against an independent DOM of the same bytes: XPath selects exactly one element, lines within the element's text, "
       "columns within the line, start not after end; an error lies in the faulted block (only there for non-declaring "
